@@ -1,0 +1,43 @@
+//go:build verif
+
+package msg
+
+import "sync/atomic"
+
+// VerifYield, when set, is called at every yield point: immediately before a lock of the box (or of a
+// pending entry) is requested and between the hand-overs of a drain. The verification harness under
+// /verif installs a controlled scheduler here. The caller never holds a lock at a yield point.
+var VerifYield func(point string)
+
+func verifYield(point string) {
+	if f := VerifYield; f != nil {
+		f(point)
+	}
+}
+
+// VerifSnapshot reports table sizes for the verification harness.
+type VerifSnapshot struct {
+	PendingTopics  int
+	BufferedMsgs   int
+	StartedTopics  int
+	InFlightTopics int // sum over senders
+	Epoch          uint64
+	LastGC         uint64
+}
+
+func (b *Box) VerifSnapshot() VerifSnapshot {
+	b.initialize()
+	b.lock.RLock()
+	defer b.lock.RUnlock()
+	s := VerifSnapshot{PendingTopics: len(b.pendingMessages), StartedTopics: len(b.startedSending),
+		Epoch: atomic.LoadUint64(&b.currentGCEpochNum), LastGC: atomic.LoadUint64(&b.lastGC)}
+	for _, m := range b.pendingMessages {
+		m.lock.RLock()
+		s.BufferedMsgs += len(m.messages)
+		m.lock.RUnlock()
+	}
+	for _, t := range b.totalInFlightTopicsBySender {
+		s.InFlightTopics += len(t)
+	}
+	return s
+}
